@@ -622,6 +622,9 @@ func (m *Machine) indexAddr(fr *frame, x *ssa.IndexAddr) Value {
 	if len(cells) == 1 {
 		return PtrV{C: cells[0]}
 	}
+	if m.Spec.ForkIndex {
+		return m.concretizePtr(PtrV{Sym: &symIdx{cells: cells, idx: idx}})
+	}
 	return PtrV{Sym: &symIdx{cells: cells, idx: idx}}
 }
 
